@@ -49,6 +49,20 @@ def alias_family():
                                          Let("s", "string", Call("at", V("a"), I(0)), True), Set("a", ALit("string", [S("three")])), Println(V("s"))])
     out["alias_interned_strings"] = P([Let("a", "string", Bin("+", S("ab"), S("c"))), Let("b", "string", S("abc")), Println(Bin("==", V("a"), V("b"))),
                                        Let("c", "string", Bin("+", V("a"), S(""))), Println(V("c"))])
+    mkrec = Func("mkrec", [("i", "int")], "Rec2", [Ret(SLit("Rec2", [("tag", Bin("+", S("rec-"), Call("int_to_string", V("i")))), ("n", V("i"))]))])
+    mkarr = Func("mkarr", [("i", "int")], "array<string>", [Ret(ALit("string", [Call("int_to_string", V("i")), S("tail")]))])
+    mktup = Func("mktup", [("i", "int")], "(int, string)", [Ret(TLit([V("i"), Bin("+", S("t"), Call("int_to_string", V("i")))]))])
+    out["temp_struct_field"] = P([For("i", I(0), I(3), [Let("n", "string", Field(Call("mkrec", V("i")), "tag")), Let("o", "string", Call("int_to_string", Bin("+", I(7000), V("i")))),
+                                                        Println(V("n")), Println(V("o"))])], [mkrec])
+    out["temp_array_elem"] = P([For("i", I(0), I(3), [Let("n", "string", Call("at", Call("mkarr", V("i")), I(0))), Let("o", "string", Call("int_to_string", Bin("+", I(7000), V("i")))),
+                                                      Println(V("n")), Println(V("o"))])], [mkarr])
+    out["temp_tuple_elem"] = P([For("i", I(0), I(3), [Let("n", "string", TIdx(Call("mktup", V("i")), 1)), Let("o", "string", Call("int_to_string", Bin("+", I(7000), V("i")))),
+                                                      Println(V("n")), Println(V("o"))])], [mktup])
+    out["concat_empty_right"] = P([Let("title", "string", Bin("+", S("item-"), Call("int_to_string", I(1000))), True), Let("suffix", "string", Call("sfx", I(0))),
+                                   Let("label", "string", Bin("+", V("title"), V("suffix"))), Set("title", Call("int_to_string", I(555000000))),
+                                   Let("other", "string", Call("int_to_string", I(777000000))), Println(V("label")), Println(V("title")), Println(V("other"))],
+                                  [Func("sfx", [("k", "int")], "string", [If(Bin("==", V("k"), I(0)), [Ret(S(""))], []), Ret(S("-x"))])])
+    out["concat_empty_left"] = P([Let("acc", "string", S(""), True), For("i", I(0), I(3), [Set("acc", Bin("+", V("acc"), Call("int_to_string", V("i"))))]), Println(V("acc"))])
     for p in out.values():
         p["structs"].append({"n": "Rec2", "fields": ["tag", "n"], "ftys": ["string", "int"]})
     return out
@@ -86,9 +100,23 @@ def run(ctx):
         d = eng.write(pid, pretty(p))
         tf = os.path.join(d, "trace.ndjson")
         r = eng.vm(d, extra_env={"NANOLANG_VERIF_TRACE_VM": tf, "NANOLANG_VERIF_FUEL": fuel})
-        n = sum(1 for _ in open(tf)) if os.path.exists(tf) else 0
+        n = 0
+        if os.path.exists(tf):           # a VM that dies mid-write leaves a partial last line: keep complete events only
+            good = []
+            for line in open(tf, errors="replace"):
+                try:
+                    json.loads(line); good.append(line)
+                except ValueError:
+                    break
+            open(tf, "w").write("".join(good)); n = len(good)
         return pid, dict(run=r, trace=tf if n else None, n=n, churn=churn)
     runs = dict(parallel_map(one, list(progs)))
+    # a VM killed by a signal while running a corpus program (heap corruption detected by the allocator, SIGSEGV ...)
+    for pid, r in runs.items():
+        if r["run"]["sig"]:
+            src = pretty(progs[pid][0]); ctx.save_replay(pid + ".nano", src)
+            ctx.violation("%s: the VM was killed by signal %d while running the program (%s)" % (pid, r["run"]["sig"], r["run"]["err"].decode(errors="replace")[-120:].strip()),
+                          ctx.save_replay(pid + ".crash.json", json.dumps({"program": pid, "signal": r["run"]["sig"], "stderr": r["run"]["err"].decode(errors="replace")[-800:], "source": src}, indent=1)))
     # 3. concatenate into chunks of bounded size, validate each chunk with TLC (chunks in parallel, one worker each)
     chunks, cur, cur_n = [], [], 0
     limit = 6000
